@@ -130,11 +130,14 @@ func worker(readyc <-chan *ScheduledJob, donec chan<- jobResult) {
 		currentJob  *ScheduledJob
 		exitCleanly bool
 	)
+	vtrace(readyc, "w_begin", nil, nil, 0, 0, 0, 0)
 	defer func() {
 		if exitCleanly {
 			return
 		}
+		vtrace(readyc, "w_dying", currentJob, nil, 0, 0, 0, 0)
 		donec <- jobResult{Job: currentJob, Err: errors.New("job exited unexpectedly")}
+		vtrace(readyc, "w_dsent", nil, nil, 0, 0, 0, 0)
 		go worker(readyc, donec)
 	}()
 
@@ -142,19 +145,26 @@ func worker(readyc <-chan *ScheduledJob, donec chan<- jobResult) {
 		res := jobResult{Job: j}
 		currentJob = j
 
+		vtrace(readyc, "w_recv", j, nil, 0, 0, 0, 0)
 		if err := j.ctx.Err(); err != nil {
 			// Don't run if context already cancelled.
 			res.Err = err
+			vtrace(readyc, "w_skip_ctx", j, err, 0, 0, 0, 0)
 		} else if j.invalid {
 			// Don't run if marked as invalid.
 			res.Err = errJobInvalid
+			vtrace(readyc, "w_skip_inv", j, nil, 0, 0, 0, 0)
 		} else {
+			vtrace(readyc, "w_start", j, nil, 0, 0, 0, 0)
 			res.Err = j.run(j.ctx)
+			vtrace(readyc, "w_end", j, res.Err, 0, 0, 0, 0)
 		}
 		currentJob = nil
 		donec <- res
+		vtrace(readyc, "w_sent", j, nil, 0, 0, 0, 0)
 	}
 	exitCleanly = true
+	vtrace(readyc, "w_exit", nil, nil, 0, 0, 0, 0)
 }
 
 // Scheduler schedules jobs for a cff flow or parallel.
@@ -264,6 +274,8 @@ func (c Config) New() *Scheduler {
 		continueOnError: c.ContinueOnError,
 	}
 
+	vtrace(sched.readyc, "s_new", nil, nil, c.Concurrency, vbool(c.ContinueOnError), vbool(c.Emitter != nil), 0)
+
 	// We lie to the caller about the number of goroutines. Spawn one
 	// extra goroutine for the Scheduler Loop.
 	go sched.run(c.Emitter, c.StateFlushFrequency)
@@ -322,7 +334,9 @@ func (s *Scheduler) Enqueue(ctx context.Context, j Job) *ScheduledJob {
 		run:  j.Run,
 		deps: j.Dependencies,
 	}
+	vtrace(s.readyc, "c_enq_begin", pj, nil, 0, 0, 0, 0)
 	s.enqueuec <- pj // panics if closed
+	vtrace(s.readyc, "c_enq", pj, nil, 0, 0, 0, 0)
 	return pj
 }
 
@@ -338,6 +352,7 @@ func (s *Scheduler) Enqueue(ctx context.Context, j Job) *ScheduledJob {
 //     its completion. Those that have no more dependencies outstanding are
 //     moved to the `ready` list.
 func (s *Scheduler) run(emitter Emitter, freq time.Duration) {
+	defer vtrace(s.readyc, "l_exit", nil, nil, 0, 0, 0, 0)
 	defer close(s.finishedc) // unblock Wait()
 	defer close(s.readyc)    // kill workers
 
@@ -356,7 +371,9 @@ func (s *Scheduler) run(emitter Emitter, freq time.Duration) {
 	// to sched.Wait.
 	defer func() {
 		for range s.enqueuec {
+			vtrace(s.readyc, "l_drain_recv", nil, nil, 0, 0, 0, 0)
 		}
+		vtrace(s.readyc, "l_drain_end", nil, nil, 0, 0, 0, 0)
 	}()
 
 	var tickerC <-chan time.Time
@@ -389,6 +406,7 @@ func (s *Scheduler) run(emitter Emitter, freq time.Duration) {
 	enqueuec := s.enqueuec
 
 	for {
+		vtrace(s.readyc, "l_select", nil, nil, pending, ongoing, waiting, ready.Len())
 		// If there's at least one job ready to be executed, grab it.
 		// If no jobs are ready, this leaves `readyc` as nil. Trying
 		// to insert into a nil channel never resolves so the select
@@ -412,6 +430,7 @@ func (s *Scheduler) run(emitter Emitter, freq time.Duration) {
 			ready.Remove(nextEl)
 
 			ongoing++
+			vtrace(s.readyc, "l_dispatch", next, nil, pending, ongoing, waiting, ready.Len())
 
 		case job, ok := <-enqueuec:
 			// Wait was called and the enqueue channel was closed.
@@ -419,6 +438,7 @@ func (s *Scheduler) run(emitter Emitter, freq time.Duration) {
 			// again. (A nil channel never resolves.)
 			if !ok {
 				enqueuec = nil
+				vtrace(s.readyc, "l_recv_closed", nil, nil, pending, ongoing, waiting, ready.Len())
 				break
 			}
 
@@ -446,6 +466,7 @@ func (s *Scheduler) run(emitter Emitter, freq time.Duration) {
 			} else {
 				waiting++
 			}
+			vtrace(s.readyc, "l_recv_enq", job, nil, pending, ongoing, waiting, ready.Len())
 
 		case res := <-s.donec:
 			job := res.Job
@@ -461,6 +482,7 @@ func (s *Scheduler) run(emitter Emitter, freq time.Duration) {
 				// failed.
 				if !s.continueOnError {
 					s.err = err
+					vtrace(s.readyc, "l_recv_done", job, err, pending, ongoing, waiting, ready.Len())
 					return
 				}
 				// With continueOnError, mark invalid directly dependent jobs,
@@ -483,6 +505,7 @@ func (s *Scheduler) run(emitter Emitter, freq time.Duration) {
 					ready.PushBack(consumer)
 				}
 			}
+			vtrace(s.readyc, "l_recv_done", job, res.Err, pending, ongoing, waiting, ready.Len())
 
 		case <-tickerC:
 			// If emitter is nil, tickerC will be a nil channel that
@@ -498,6 +521,7 @@ func (s *Scheduler) run(emitter Emitter, freq time.Duration) {
 					Concurrency: s.concurrency,
 				},
 			)
+			vtrace(s.readyc, "l_tick", nil, nil, pending, ongoing, waiting, ready.Len())
 		}
 
 		// If all enqueued jobs have been finished and no new enqueues
@@ -517,8 +541,10 @@ func (s *Scheduler) run(emitter Emitter, freq time.Duration) {
 // No new jobs may be enqueued once Wait is called.
 func (s *Scheduler) Wait(ctx context.Context) error {
 	close(s.enqueuec) // disallow new Enqueues
+	vtrace(s.readyc, "c_close", nil, nil, 0, 0, 0, 0)
 	select {
 	case <-ctx.Done():
+		vtrace(s.readyc, "c_ret_ctx", nil, ctx.Err(), 0, 0, 0, 0)
 		return ctx.Err()
 	case <-s.finishedc: // wait for Scheduler Loop to exit
 		err := s.err
@@ -529,6 +555,7 @@ func (s *Scheduler) Wait(ctx context.Context) error {
 		if err == nil {
 			err = ctx.Err()
 		}
+		vtrace(s.readyc, "c_ret_fin", nil, err, 0, 0, 0, 0)
 		return err
 	}
 }
